@@ -76,6 +76,8 @@ def gen_kinst(rng, nmin=2, nmax=10, m=0, labelled=False, kinds=("feat", "lattice
 
 
 _KREUSE = {}
+import drive as _kdrive
+_KDRV = random.Random(20261002)
 
 
 def make_knn_model(inst, cls, reuse=False, **kw):
@@ -98,11 +100,17 @@ def make_knn_model(inst, cls, reuse=False, **kw):
             if reuse:
                 _KREUSE[cls] = opf
         X = np.array(inst.X, dtype=float)
+        _kdrive.poke_report(opf, _KDRV, 0.3, dict(inst.desc(), constructor_arguments=kw))
         return opf, X, None
-    opf = cls(**kw)
-    opf.pre_computed_distance = True
     big, idx = embed_matrix(inst.D)
-    opf.pre_distances = big
+    if _KDRV.random() < 0.35:
+        # the matrix through a file whose name recurs with other content (harness/drive.py)
+        opf = cls(pre_computed_distance=_kdrive.matrix_file(big, _KDRV), **kw)
+    else:
+        opf = cls(**kw)
+        opf.pre_computed_distance = True
+        opf.pre_distances = big
+    _kdrive.poke_report(opf, _KDRV, 0.3, dict(inst.desc(), constructor_arguments=kw))
     N = len(inst.D)
     return opf, np.zeros((N, 1)), idx
 
